@@ -47,6 +47,14 @@ class Ctx:
         self.scratch = "/var/tmp/verif-%s-%d" % (prop, os.getpid())
         shutil.rmtree(self.scratch, ignore_errors=True)
         os.makedirs(self.scratch)
+        # replay files of earlier runs of this property are stale
+        if os.path.isdir(REPLAYS):
+            for fn in os.listdir(REPLAYS):
+                if fn.startswith(prop + "-"):
+                    try:
+                        os.remove(os.path.join(REPLAYS, fn))
+                    except OSError:
+                        pass
         self.violations = []       # list of dict(kind, detail, replay)
         self.known = []            # KNOWN-FINDING lines printed
         self.notes = []
